@@ -143,8 +143,10 @@ pub fn corruptions(a: &Array, rng: &mut Rng) -> Vec<(String, Array)> {
     out
 }
 
-fn corrupted_case(ctx: &mut Ctx, field: &Field, arr: &Array, what: &str) {
-    let view = arr.as_view();
+fn corrupted_case(ctx: &mut Ctx, field: &Field, arr: &Array, what: &str) { corrupted_view_case(ctx, field, &arr.as_view(), what) }
+
+fn corrupted_view_case(ctx: &mut Ctx, field: &Field, view: &marrow::view::View, what: &str) {
+    let view = view.clone();
     let len = match guarded(|| Deserializer::from_marrow(std::slice::from_ref(field), std::slice::from_ref(&view)).map(|d| d.len()).map_err(|e| e.to_string())) { Out::Ok(l) => l, Out::Err(_) => 0, Out::Panic(_) => 0 };
     let mut reads = vec![];
     let mut fails = vec![];
@@ -185,6 +187,31 @@ pub fn run(ctx: &mut Ctx) {
         for (what, arr) in &all { corrupted_case(ctx, &field, arr, what); }
         // a pair of corruptions
         if !all.is_empty() { let (w1, a1) = &all[rng.below(all.len())]; let mut second = corruptions(a1, &mut rng); if !second.is_empty() { let k = rng.below(second.len()); let (w2, a2) = second.swap_remove(k); corrupted_case(ctx, &field, &a2, &format!("{} + {}", w1, w2)); } }
+    }
+    // windows with a bit offset whose bitmaps are too short (truncated, not empty): every bit offset 1..7 x every number of
+    // bytes kept, for columns with a validity bitmap (and, for Boolean, a values bitmap); rows up to the window length are read
+    {
+        use DataType as T;
+        let mk = |n: &str, dt: DataType, nl: bool| Field { name: n.into(), data_type: dt, nullable: nl, metadata: Default::default() };
+        let mut rng = ctx.rng.fork();
+        for dt in [T::Int32, T::Boolean, T::Utf8, T::Float64, T::List(Box::new(mk("element", T::Int8, true))), T::Struct(vec![mk("a", T::Int32, true)])] {
+            let field = mk("c", dt, true);
+            let nrows = 24usize;
+            let mut none = Inject { countdown: -1, what: None };
+            let rows: Vec<Val> = (0..nrows).map(|i| Val::Struct(vec![("c".to_string(), if i % 5 == 1 { Val::None } else { arrgen::gen_val(&mut rng, &mk("c", field.data_type.clone(), false), &mut none) })], 0)).collect();
+            let Out::Ok(arrays) = guarded(|| serde_arrow::to_marrow(std::slice::from_ref(&field), &rows).map_err(|e| e.to_string())) else { ctx.count("skipped:sliced_rows_rejected"); continue };
+            let whole = arrays[0].as_view();
+            for off in 1..8usize {
+                let len = nrows - off;
+                let window = crate::viewgen::slice_view(&whole, off, len);
+                for keep in 1..3usize {
+                    if !ctx.thorough && (off + keep) % 2 == 1 { continue; }
+                    let cut = crate::viewgen::truncate_bits(&window, keep);
+                    ctx.count("sliced:bit_offset_x_short_bitmap");
+                    corrupted_view_case(ctx, &field, &cut, &format!("window at {} of {} rows, bitmaps cut to {} byte(s)", off, nrows, keep));
+                }
+            }
+        }
     }
     // directed: every kind of child below every kind of parent, all single-point corruptions (no sampling),
     // rows with nulls at the child so that validity bitmaps exist, 3 rows (bitmap padding) and 9 rows (two bytes)
